@@ -313,8 +313,9 @@ class QueryHandler:
             return None
 
         is_probe = False
-        msg = msgs[0]
-        questions = msg._questions
+        # A query can span several packets (TC bit): its questions are those
+        # of all of them, not only of the first
+        questions = [question for msg in msgs for question in msg._questions]
         # Only decode known answers if we are not a probe and we have
         # at least one answer strategy
         answers: List[DNSRecord] = []
